@@ -110,6 +110,7 @@ type symEnv struct {
 	depth      int
 	optsParams map[*ssa.Parameter]bool // parameters of the interpreted function that ARE the caller's options struct
 	getter     *getOpts
+	outer      map[string]string // the caller's symbolic memory (objects the arguments may point to); read-only
 }
 
 // markOptsParam: parameter p of this frame's function denotes the options
@@ -1093,8 +1094,13 @@ func (f *frame) call(x *ssa.Call, k *an.Walk) {
 		}
 		if sub != nil && sub.undec == "" {
 			pre := "alloc:" + callee.Name() + "@" + x.Name() + "/"
-			ren := func(e string) string { return strings.ReplaceAll(e, "alloc:", pre) }
+			ren := f.renamer(pre)
 			for mk, mv := range sub.fr.mem {
+				if _, foreign := f.mem[mk]; foreign && sub.fr.env != nil && sub.fr.env.outer != nil {
+					if _, was := sub.fr.env.outer[mk]; was {
+						continue // the caller's own object, seen by the callee through its arguments
+					}
+				}
 				f.mem[ren(mk)] = ren(mv)
 			}
 			var tup []string
@@ -1142,16 +1148,41 @@ func (f *frame) call(x *ssa.Call, k *an.Walk) {
 				if sub.undec == "" && sub.fr != nil && len(sub.retExpr) == 1 && strings.HasPrefix(sub.retExpr[0], "&alloc:") {
 					// import the callee's local objects under a call-unique prefix
 					pre := "alloc:" + callee.Name() + "@" + x.Name() + "/"
-					ren := func(e string) string {
-						return strings.ReplaceAll(e, "alloc:", pre)
-					}
+					ren := f.renamer(pre)
 					for mk, mv := range sub.fr.mem {
+						if _, foreign := f.mem[mk]; foreign && sub.fr.env != nil && sub.fr.env.outer != nil {
+							if _, was := sub.fr.env.outer[mk]; was {
+								continue
+							}
+						}
 						f.mem[ren(mk)] = ren(mv)
 					}
 					f.elem[x] = ren(sub.retExpr[0])
 				}
 			}
 		}
+	}
+}
+
+var allocRoot = regexp.MustCompile(`alloc:[^.\[\]\s,(){};=]+`)
+
+// renamer gives the function that moves a callee's local objects under a
+// call-unique prefix when its results are imported into this frame. Objects of
+// this frame that the callee only saw through its arguments keep their names.
+func (f *frame) renamer(pre string) func(string) string {
+	own := map[string]bool{}
+	for k := range f.mem {
+		if m := allocRoot.FindString(k); m != "" {
+			own[m] = true
+		}
+	}
+	return func(e string) string {
+		return allocRoot.ReplaceAllStringFunc(e, func(tok string) string {
+			if own[tok] {
+				return tok
+			}
+			return pre + strings.TrimPrefix(tok, "alloc:")
+		})
 	}
 }
 
@@ -1165,7 +1196,7 @@ type interpResult struct {
 
 // interpCall interprets callee at a call site of the caller frame.
 func (c *Ctx) interpCall(callee *ssa.Function, call *ssa.Call, caller *frame) *interpResult {
-	env := &symEnv{subst: map[string]string{}, depth: caller.env.depth + 1}
+	env := &symEnv{subst: map[string]string{}, depth: caller.env.depth + 1, outer: caller.mem}
 	pre := "$"
 	if callee.Parent() != nil {
 		pre = "$$"
@@ -1295,6 +1326,9 @@ func (c *Ctx) interpG(fn *ssa.Function, env *symEnv, val map[string]bool, pass m
 		env = &symEnv{}
 	}
 	fr := &frame{c: c, fn: fn, env: env, mem: map[string]string{}, nodes: map[ssa.Value]*Node{}, optsV: map[ssa.Value]bool{}, elem: map[ssa.Value]string{}, tuples: map[ssa.Value][]string{}, g: g, cache: map[ssa.Value]string{}}
+	for k, v := range env.outer {
+		fr.mem[k] = v
+	}
 	for k, v := range pass {
 		fr.nodes[k] = v
 	}
@@ -1399,6 +1433,12 @@ func (f *frame) optionList(v ssa.Value, depth int) ([]optCall, bool) {
 	}
 	if list, ok := S.variadicOptions(v); ok {
 		return list, true
+	}
+	if f.k != nil && S.applyLoopSkipsNil() {
+		// an option value chosen on the way (`var o Option; if cond { o = WithX(v) }; f(..., o)`): what it is on this path
+		if list, ok := S.variadicOptionsR(v, func(x ssa.Value) ssa.Value { return an.Strip(f.k.Resolve(x)) }); ok {
+			return list, true
+		}
 	}
 	switch x := v.(type) {
 	case *ssa.Call:
